@@ -8,7 +8,7 @@ St == LET b0 == [inc |-> cell.inc]
           b1 == IF cell.lg = Absent THEN b0 ELSE [b0 EXCEPT !.inc = cell.inc] @@ [largest |-> cell.lg]
           b2 == IF cell.sm = Absent THEN b1 ELSE b1 @@ [smallest |-> cell.sm]
       IN IF last.mode = Absent THEN b2 ELSE b2 @@ [mode |-> last.mode]
-Cls == cell.op \o (IF last.same THEN "/same-operands/" ELSE "/") \o (IF last.res.kind = "ok" THEN "accepted" ELSE "rejected") \o "/sm-" \o cell.sm \o "/lg-" \o cell.lg
+Cls == cell.op \o (IF last.same THEN "/same-operands/" ELSE IF "oz" \in DOMAIN last.operands /\ last.operands.oz THEN "/other-zone/" ELSE "/") \o (IF last.res.kind = "ok" THEN "accepted" ELSE "rejected") \o "/sm-" \o cell.sm \o "/lg-" \o cell.lg
 CaseOf == IF IsTable THEN [op |-> "Opt." \o last.op, cls |-> last.op, args |-> last.operands, out |-> last.out] ELSE
           [op |-> "Opt." \o cell.op, cls |-> Cls, args |-> [st |-> St, operands |-> last.operands, same |-> last.same], out |-> last.out]
 Emit == ~Done \/ PrintT("CASE " \o ToJson(CaseOf))
